@@ -86,6 +86,18 @@ impl HostCtx {
         let sock = |tok: &str| addrs(|m| m.sock_of(tok));
         let ip = |tok: &str| addrs(|m| m.ip_of(tok));
         let stok = |a: SocketAddr| addrs(|m| m.sock_tok(a));
+        // ops that create an object refuse to overwrite an occupied slot (an implicit drop would be
+        // an unlogged operation)
+        let target = match t[0] {
+            "udp_bind" | "tcp_bind" | "tcp_connect" => Some(slot_of(t[1])),
+            "tcp_accept" => Some(slot_of(t[2])),
+            _ => None,
+        };
+        if let Some(s) = target {
+            if self.slots.get(s).map(|x| x.is_some()).unwrap_or(false) {
+                return "err slotbusy".into();
+            }
+        }
         match t[0] {
             "udp_bind" => {
                 let s = slot_of(t[1]);
@@ -386,6 +398,11 @@ impl HostCtx {
             "net_repair1" => { turmoil::repair_oneway(ip(t[1]), ip(t[2])); "ok".into() }
             "net_hold" => { turmoil::hold(ip(t[1]), ip(t[2])); "ok".into() }
             "net_release" => { turmoil::release(ip(t[1]), ip(t[2])); "ok".into() }
+            "lookup" => {
+                let a = turmoil::lookup(t[1]);
+                let n = match a { IpAddr::V4(v) => u32::from(v) as u128, IpAddr::V6(v) => u128::from(v) };
+                format!("ok {n}")
+            }
             other => format!("err unknownop:{other}"),
         }
     }
@@ -573,7 +590,11 @@ impl<'a> Case<'a> {
                 m.hosts.push(ip);
                 m.names.push(nodename);
             });
-            log(format!("OP ctl reg {i} ip={} kind=host", ipnum(ip)));
+            log(format!(
+                "OP ctl reg {i} ip={} kind=host name={}",
+                ipnum(ip),
+                if cfg.desc { "-" } else { name.as_str() }
+            ));
             log("OBS ok".into());
         }
         let _ = turmoil::verif::drain_decisions();
@@ -697,6 +718,37 @@ impl<'a> Case<'a> {
             "setfail" => { self.sim.set_fail_rate(t[1].parse().unwrap()); "ok".into() }
             "setlinkfail" => { self.sim.set_link_fail_rate(ip(t[1]), ip(t[2]), t[3].parse().unwrap()); "ok".into() }
             "mark" => "ok".into(),
+            "dns" => {
+                let ip = self.sim.lookup(t[1]);
+                format!("ok {}", ipnum(ip))
+            }
+            "dnsip" => {
+                // literal address passes through and registers nothing
+                let lit: IpAddr = if self.cfg.v6 {
+                    IpAddr::V6(std::net::Ipv6Addr::from(t[1].parse::<u128>().unwrap()))
+                } else {
+                    IpAddr::V4(std::net::Ipv4Addr::from(t[1].parse::<u32>().unwrap()))
+                };
+                let ip = self.sim.lookup(lit.to_string().as_str());
+                format!("ok {}", ipnum(ip))
+            }
+            "rdns" => {
+                let ip: IpAddr = if self.cfg.v6 {
+                    IpAddr::V6(std::net::Ipv6Addr::from(t[1].parse::<u128>().unwrap()))
+                } else {
+                    IpAddr::V4(std::net::Ipv4Addr::from(t[1].parse::<u32>().unwrap()))
+                };
+                match self.sim.reverse_lookup(ip) {
+                    Some(n) => format!("ok {n}"),
+                    None => "none".into(),
+                }
+            }
+            "dnsprefix" => {
+                let re = regex::Regex::new(&format!("^{}", t[1])).unwrap();
+                let ips = self.sim.lookup_many(re);
+                let v: Vec<String> = ips.iter().map(|i| ipnum(*i).to_string()).collect();
+                format!("ok {}", if v.is_empty() { "-".to_string() } else { v.join(",") })
+            }
             "simclock" => format!(
                 "ok elapsed={} epoch={}",
                 self.sim.elapsed().as_nanos(),
